@@ -18,7 +18,7 @@ GOLD = os.path.join(HERE, "golden_shapes.json")
 WHOLE = re.compile(r"^(skinny(128|64)_(LFSR[23](_\w+)?|sbox(_\w+)?|inv_sbox(_\w+)?|permute_tk(_\w+)?|inc_counter|rotate_right)|"
                    r"(skinny128_sbox_(four|two)|skinny128_rotate_right)@skinny128-ctr-vec(128|256)\.c|(skinny64_sbox|skinny64_rotate_right)@skinny64-ctr-vec128\.c|"
                    r"mantis_(sbox|update_tweak|update_tweak_inverse|shift_rows|shift_rows_inverse|mix_columns|unpack_block|unpack_rotated_block|swap_modes)|"
-                   r"_skinny_has_vec(128|256)|(skinny(128|64)|mantis)_ctr_increment(@.*)?|"
+                   r"_skinny_has_vec(128|256)|(skinny(128|64)|mantis)_ctr_increment(@.*)?|skinny128_xor|skinny64_xor|skinny_xor|"
                    r"(skinny128_(inv_)?sbox_four|skinny64_(inv_)?sbox|skinny(128|64)_rotate_right)@skinny(128|64)-parallel-vec(128|256)\.c|"
                    r"(skinny128_sbox_(four|two)|skinny128_rotate_right)@skinny128-ctr-vec(128|256)\.c|(skinny64_sbox|skinny64_rotate_right)@skinny64-ctr-vec128\.c|"
                    r"mantis_(sbox|update_tweak|update_tweak_inverse|shift_rows|shift_rows_inverse|mix_columns)@mantis-(parallel|ctr)-vec128\.c)$")
